@@ -412,5 +412,62 @@ theorem delPassT_eq_delCore (S k : α) (t : Viewshed.Tree α) (l : Viewshed.Tree
       rw [g2]
       exact congrArg some g1
 
+/-! ### the complete deletion -/
+
+theorem isNil_eq (t : Viewshed.Tree α) : isNil t = isNilT t := by cases t <;> rfl
+
+theorem minInfo_leftmost : ∀ (rl : Viewshed.Tree α) (m : Node α) (mm : α) (mc : Bool) (rr : Viewshed.Tree α)
+    (acc : List (TFr α)),
+    minInfo rl mc rr (acc.map TFr.dir) =
+      ((leftmostTZ rl m mm mc rr acc).2.2.2.map TFr.dir, (leftmostTZ rl m mm mc rr acc).2.1,
+        isNilT (leftmostTZ rl m mm mc rr acc).2.2.1) := by
+  intro rl
+  induction rl with
+  | nil => intro m mm mc rr acc; simp only [minInfo, leftmostTZ, isNil_eq]
+  | node a b bm bc cc iha _ =>
+    intro m mm mc rr acc
+    exact iha b bm bc cc (.L m mm mc rr :: acc)
+
+theorem spliceInfo_findTZ (k : α) : ∀ (t : Viewshed.Tree α) (acc : List (TFr α)),
+    spliceInfo k t (acc.map TFr.dir) =
+      (findTZ k t acc).map fun p =>
+        ((splicePosT p.1 p.2.1 p.2.2.1 p.2.2.2.1 p.2.2.2.2.1 p.2.2.2.2.2).2.2.2.1.map TFr.dir,
+          (splicePosT p.1 p.2.1 p.2.2.1 p.2.2.2.1 p.2.2.2.2.1 p.2.2.2.2.2).2.2.1,
+          isNilT (splicePosT p.1 p.2.1 p.2.2.1 p.2.2.2.1 p.2.2.2.2.1 p.2.2.2.2.2).1) := by
+  intro t
+  induction t with
+  | nil => intro acc; rfl
+  | node l n mx c r ihl ihr =>
+    intro acc
+    simp only [spliceInfo, findTZ]
+    by_cases h1 : k < n.key
+    · rw [if_pos h1, if_pos h1]; exact ihl (.L n mx c r :: acc)
+    · rw [if_neg h1, if_neg h1]
+      by_cases h2 : n.key < k
+      · rw [if_pos h2, if_pos h2]; exact ihr (.R l n mx c :: acc)
+      · rw [if_neg h2, if_neg h2]
+        cases l with
+        | nil => simp only [Option.map_some, splicePosT, isNil_eq]
+        | node a b bm bc cc =>
+          cases r with
+          | nil => simp only [Option.map_some, splicePosT, isNilT]
+          | node rl m mm mc rr =>
+            simp only [Option.map_some, splicePosT]
+            exact congrArg some (minInfo_leftmost rl m mm mc rr (.R (.node a b bm bc cc) n mx c :: acc))
+
+/-- **over a linear order the deletion as the code has it is the hand model's deletion** -/
+theorem rbDeleteP_eq_rbDelete (S k : α) (t : Viewshed.Tree α) : rbDeleteP eqv S k t = rbDelete S k t := by
+  unfold rbDeleteP rbDelete
+  have hsi := spliceInfo_findTZ k t []
+  rw [List.map_nil] at hsi
+  rw [hsi]
+  cases hf : findTZ k t [] with
+  | none => rfl
+  | some p =>
+    obtain ⟨l, n, mx, c, r, fs⟩ := p
+    simp only [Option.map_some]
+    rw [delPassT_eq_delCore S k t l n mx c r fs hf]
+    rfl
+
 end
 end XrsVerif.ILVs
